@@ -1424,3 +1424,247 @@ def inline_lets(node):
             return m
         return {kk: subst(v, env) for kk, v in n.items()}
     return subst(copy.deepcopy(node), {})
+
+
+# --------------------------------------------------------------------------------------------
+# Path enumeration over the syntax of one function: what it yields under which conditions
+# --------------------------------------------------------------------------------------------
+
+class Path:
+    """one syntactic path through a function body.
+    conds   [(normalised source of the condition, True|False)]  in order; `let P = e` for if-let / match arms (`e~P`)
+    events  [node] calls / method calls / assignments executed on the path, in order (loop bodies and closures contribute their
+            calls once, marked by the enclosing `loop`/`closure` node being in self.inside[id(event)])
+    result  node | None   the value the function yields on this path (argument of `return`, or the tail expression)
+    how     'tail' | 'return' | 'diverge'
+    """
+    __slots__ = ("conds", "events", "result", "how", "loops")
+
+    def __init__(self, conds=(), events=(), result=None, how=None, loops=()):
+        self.conds = list(conds)
+        self.events = list(events)
+        self.result = result
+        self.how = how
+        self.loops = list(loops)
+
+    def fork(self):
+        return Path(self.conds, self.events, self.result, self.how, self.loops)
+
+    def cond_set(self):
+        return {(c, pol) for c, pol in self.conds}
+
+    def holds(self, text):
+        """is condition `text` (normalised source) known true / false on this path? -> True | False | None"""
+        t = text.replace(" ", "")
+        for c, pol in self.conds:
+            if c == t:
+                return pol
+            if c == "!" + t or c == "(!" + t + ")":
+                return not pol
+            if t.startswith("!") and c == t[1:]:
+                return not pol
+        return None
+
+
+def _norm_cond(e):
+    s = src(strip(e)).replace(" ", "")
+    while s.startswith("(") and s.endswith(")") and _balanced(s[1:-1]):
+        s = s[1:-1]
+    return s
+
+
+def _events_of(e, out):
+    """calls inside an expression, in source order, not descending into closures/blocks that are handled by the walker"""
+    for n in walk_no_closure(e):
+        if n.get("k") in ("call", "mcall", "macro"):
+            out.append(n)
+        elif n.get("k") == "binary" and n.get("op", "").endswith("=") and n["op"] not in ("==", "!=", "<=", ">="):
+            out.append(n)
+        elif n.get("k") == "assign":
+            out.append(n)
+
+
+def fn_paths(body, limit=4000):
+    """all syntactic paths of a function body (after inline_lets). Loops are not unrolled: their body is walked once and its
+    events are recorded (a `return` inside a loop ends a path that carries the loop's entry condition `in-loop`)."""
+    body = inline_lets(body)
+    done = []
+
+    def seq(stmts, tail_is_value, paths):
+        """run a statement list over a set of live paths; returns live paths (whose `result` is the block's value when tail_is_value)"""
+        for i, st in enumerate(stmts):
+            last = i == len(stmts) - 1
+            if not paths:
+                return []
+            k = st.get("k")
+            if k == "local":
+                if st.get("init") is not None:
+                    paths = expr(st["init"], paths, value=False)
+                    if st.get("else") is not None:
+                        # let-else: the else block diverges
+                        for p in paths:
+                            q = p.fork()
+                            q.conds.append((_norm_cond({"k": "let", "pat": st["pat"], "e": st["init"]}), False))
+                            for r in seq(st["else"].get("stmts", []), False, [q]):
+                                pass
+                            p.conds.append((_norm_cond({"k": "let", "pat": st["pat"], "e": st["init"]}), True))
+                continue
+            if k == "expr":
+                is_value = last and tail_is_value and not st.get("semi")
+                paths = expr(st["e"], paths, value=is_value)
+                continue
+            # items, macros-as-statements
+            for p in paths:
+                _events_of(st, p.events)
+        return paths
+
+    def expr(e, paths, value):
+        """evaluate expression e on each path; if value, set p.result to the (sub)expression that is the value"""
+        if len(done) + len(paths) > limit:
+            raise AnchorError("too many paths")
+        e0 = e
+        e = strip(e) if isinstance(e, dict) else e
+        k = e.get("k")
+        if k == "block":
+            return seq(e["stmts"], value, paths)
+        if k == "return":
+            for p in paths:
+                if e.get("e") is not None:
+                    _events_of(e["e"], p.events)
+                p.result, p.how = e.get("e"), "return"
+                done.append(p)
+            return []
+        if k in ("break", "continue"):
+            for p in paths:
+                p.how = k
+                done.append(p)
+            return []
+        if k == "if":
+            out = []
+            c = e["c"]
+            cs = _norm_cond(c)
+            for p in paths:
+                _events_of(c.get("e", c) if c.get("k") == "let" else c, p.events)
+                a, b = p, p.fork()
+                a.conds.append((cs, True))
+                b.conds.append((cs, False))
+                out += expr(e["then"], [a], value)
+                if e.get("else") is not None:
+                    out += expr(e["else"], [b], value)
+                else:
+                    if value:
+                        b.result = None
+                    out.append(b)
+            return out
+        if k == "match":
+            out = []
+            scrut = _norm_cond(e["e"])
+            for p in paths:
+                _events_of(e["e"], p.events)
+            for a in e["arms"]:
+                for p in paths:
+                    q = p.fork()
+                    q.conds.append((scrut + "~" + src(a["pat"]).replace(" ", ""), True))
+                    if a.get("guard") is not None:
+                        _events_of(a["guard"], q.events)
+                        q.conds.append((_norm_cond(a["guard"]), True))
+                    out += expr(a["body"], [q], value)
+            return out
+        if k in ("for", "while", "loop"):
+            for p in paths:
+                if k == "for":
+                    _events_of(e["iter"], p.events)
+                elif k == "while":
+                    _events_of(e["c"], p.events)
+                p.loops.append(e)
+            inner = seq(e["body"].get("stmts", []) if isinstance(e.get("body"), dict) else [], False, [p.fork() for p in paths])
+            # events of the loop body are appended to the continuing paths (once); returns inside the loop were recorded in `done`
+            for p in paths:
+                for n in walk_no_closure(e["body"]):
+                    if n.get("k") in ("call", "mcall", "macro"):
+                        p.events.append(n)
+            return paths
+        # a wrapper around a branching value: Ok(if c { a } else { b }) yields Ok(a) / Ok(b)
+        if value and k == "call" and e["f"].get("k") == "path" and e["f"]["p"] in ("Ok", "Some", "Err", "Box::from", "Box::new") and len(e["args"]) == 1 \
+                and strip(e["args"][0]).get("k") in ("if", "match", "block"):
+            out = expr(e["args"][0], paths, True)
+            for p in out:
+                if p.how in (None, "tail"):
+                    p.result = {"k": "call", "f": e["f"], "args": [p.result if p.result is not None else {"k": "tuple", "elems": []}], "ln": e.get("ln")}
+                    p.how = "tail"
+            return out
+        # plain expression
+        for p in paths:
+            _events_of(e, p.events)
+            if value:
+                p.result, p.how = e0, "tail"
+        return paths
+
+    live = expr(body, [Path()], value=True)
+    for p in live:
+        if p.how is None:
+            p.how = "tail"
+        done.append(p)
+    return done
+
+
+def unwrap_ok(e):
+    """`Ok(x)` -> x ; anything else unchanged"""
+    e1 = strip(e) if isinstance(e, dict) else e
+    if isinstance(e1, dict) and e1.get("k") == "call" and src(e1["f"]) == "Ok" and len(e1["args"]) == 1:
+        return strip(e1["args"][0])
+    return e1
+
+
+def format_sequence(fa):
+    """the pieces a `format_args!` node prints, in print order: literal text and the normalised source of each argument
+    (`"{1}{0}\\n", a, b` -> [src(b), src(a), "\\n"]), so that positional, numbered and inline-captured forms compare equal"""
+    import re as _re
+    tmpl = fa["args"][0].get("v")
+    args = [src(strip(a)).replace(" ", "") for a in fa["args"][1:]]
+    out = []
+    pos = 0
+    nxt = 0
+    for m in _re.finditer(r"\{(\d*)(?::[^}]*)?\}", tmpl):
+        if m.start() > pos:
+            out.append(tmpl[pos:m.start()])
+        i = int(m.group(1)) if m.group(1) else nxt
+        nxt = i + 1 if not m.group(1) else nxt
+        out.append(args[i] if i < len(args) else "?")
+        pos = m.end()
+    if pos < len(tmpl):
+        out.append(tmpl[pos:])
+    return out
+
+
+def rename_shadowing_clones(node, name):
+    """copy of a tree in which, inside every block that re-binds `name` to a clone of itself (`let mut it = it.clone();` - the
+    look-ahead idiom), the later uses of `name` in that block are renamed to `<name>__clone`: calls on the clone are then not
+    mistaken for calls on the original"""
+    import copy
+
+    def ren(n, active):
+        if isinstance(n, list):
+            return [ren(x, active) for x in n]
+        if not isinstance(n, dict):
+            return n
+        if n.get("k") == "block":
+            out = []
+            act = active
+            for st in n["stmts"]:
+                if st.get("k") == "local" and st.get("init") is not None and st["pat"].get("k") == "pident" and st["pat"]["name"] == name \
+                        and src(st["init"]).replace(" ", "") in (name + ".clone()", "(" + name + ".clone())"):
+                    st2 = ren(st, act)
+                    st2 = dict(st2)
+                    st2["pat"] = dict(st2["pat"], name=name + "__clone")
+                    out.append(st2)
+                    act = True
+                    continue
+                out.append(ren(st, act))
+            m = dict(n)
+            m["stmts"] = out
+            return m
+        if active and n.get("k") == "path" and n["p"] == name:
+            return dict(n, p=name + "__clone")
+        return {k: ren(v, active) for k, v in n.items()}
+    return ren(copy.deepcopy(node), False)
